@@ -67,6 +67,12 @@ def decLe (a b : Sub) : Bool :=
 /-- the optional `convert_pitch_to_agnostic` callback: `none` when the keyword is absent -/
 abbrev Convert := Option (Str → Except Err Str)
 
+/-- `content if len(content) > 0 else EMPTY_TOKEN` -/
+def orEmpty (s : Str) : Str := if s.isEmpty then Gen.emptyToken else s
+
+/-- `content = pd_part; if decoration_part: content += '·' + decoration_part` -/
+def withDec (p d : Str) : Str := if d.isEmpty then p else p ++ [decSep] ++ d
+
 /-- `NoteRestToken.export(filter_categories=…, convert_pitch_to_agnostic=…)` -/
 def exportNote (filter : Cat → Bool) (convert : Convert) (n : Note) : Except Err Str := do
   let pd := (n.pd.filter (fun s => filter s.cat)).mergeSort pdLe
@@ -87,8 +93,7 @@ def exportNote (filter : Cat → Bool) (convert : Convert) (n : Note) : Except E
       if durPart.isEmpty then g else durPart ++ [tokSep] ++ g
     | none => joinSep [tokSep] (pd.map (·.enc))
   let decPart := joinSep [decSep] (dec.map (·.enc))
-  let content := if decPart.isEmpty then pdPart else pdPart ++ [decSep] ++ decPart
-  pure (if content.isEmpty then Gen.emptyToken else content)
+  pure (orEmpty (withDec pdPart decPart))
 
 /-- `ChordToken.export(**kwargs)`: the notes' exports joined by one space -/
 def exportChord (filter : Cat → Bool) (convert : Convert) (ns : List Note) : Except Err Str := do
@@ -104,10 +109,11 @@ def exportTok (filter : Cat → Bool) (convert : Convert) : Tok → Except Err S
 /-- `s.replace('@', '').replace('·', '')` -/
 def strip (s : Str) : Str := removeC decSep (removeC tokSep s)
 
+/-- `if s.endswith(c): s = s[:-1]` -/
+def dropTrailing (c : Char) (s : Str) : Str := if s.getLast? == some c then s.dropLast else s
+
 /-- one note of `BekernTokenizer.tokenize`: everything from the first `·` on is dropped, then one trailing `@` -/
-def bekernNote (s : Str) : Str :=
-  let reduced := (splitOnC decSep s).headD []
-  if reduced.getLast? == some tokSep then reduced.dropLast else reduced
+def bekernNote (s : Str) : Str := dropTrailing tokSep ((splitOnC decSep s).headD [])
 
 /-- `BekernTokenizer.tokenize` on the eKern text: note by note (space separated) -/
 def bekernOf (ekern : Str) : Str :=
